@@ -182,10 +182,14 @@ fn to_py(core: &Core, ind: usize) -> String {
         Core::Block { statements } => newline_delimited(statements, ind),
 
         Core::PropertyCall { object, property } => {
-            format!("{}.{}", to_py(object, ind), to_py(property, ind))
+            format!("{}.{}", postfix_base(object, ind), to_py(property, ind))
         }
         Core::FunctionCall { function, args } => {
-            format!("{}({})", to_py(function, ind), comma_delimited(args, ind))
+            format!(
+                "{}({})",
+                operand(function, 16, ind),
+                comma_delimited(args, ind)
+            )
         }
 
         Core::DictComprehension {
@@ -256,76 +260,34 @@ fn to_py(core: &Core, ind: usize) -> String {
         Core::UnderScore => String::from("_"),
 
         Core::Ge { left, right } => {
-            format!(
-                "{} > {}",
-                to_py(left.as_ref(), ind),
-                to_py(right.as_ref(), ind)
-            )
+            format!("{} > {}", operand(left, 7, ind), operand(right, 7, ind))
         }
         Core::Geq { left, right } => {
-            format!(
-                "{} >= {}",
-                to_py(left.as_ref(), ind),
-                to_py(right.as_ref(), ind)
-            )
+            format!("{} >= {}", operand(left, 7, ind), operand(right, 7, ind))
         }
         Core::Le { left, right } => {
-            format!(
-                "{} < {}",
-                to_py(left.as_ref(), ind),
-                to_py(right.as_ref(), ind)
-            )
+            format!("{} < {}", operand(left, 7, ind), operand(right, 7, ind))
         }
         Core::Leq { left, right } => {
-            format!(
-                "{} <= {}",
-                to_py(left.as_ref(), ind),
-                to_py(right.as_ref(), ind)
-            )
+            format!("{} <= {}", operand(left, 7, ind), operand(right, 7, ind))
         }
 
-        Core::Not { expr } => format!("not {}", to_py(expr.as_ref(), ind)),
-        Core::And { left, right } => {
-            format!(
-                "{} and {}",
-                to_py(left.as_ref(), ind),
-                to_py(right.as_ref(), ind)
-            )
-        }
-        Core::Or { left, right } => {
-            format!(
-                "{} or {}",
-                to_py(left.as_ref(), ind),
-                to_py(right.as_ref(), ind)
-            )
-        }
+        Core::Not { expr } => format!("not {}", operand(expr, 5, ind)),
+        Core::And { left, right } => bin_left(left, "and", right, 4, ind),
+        Core::Or { left, right } => bin_left(left, "or", right, 3, ind),
         Core::Is { left, right } => {
-            format!(
-                "{} is {}",
-                to_py(left.as_ref(), ind),
-                to_py(right.as_ref(), ind)
-            )
+            format!("{} is {}", operand(left, 7, ind), operand(right, 7, ind))
         }
-        Core::IsN { left, right } => {
-            format!(
-                "{} is not {}",
-                to_py(left.as_ref(), ind),
-                to_py(right.as_ref(), ind)
-            )
-        }
+        Core::IsN { left, right } => format!(
+            "{} is not {}",
+            operand(left, 7, ind),
+            operand(right, 7, ind)
+        ),
         Core::Eq { left, right } => {
-            format!(
-                "{} == {}",
-                to_py(left.as_ref(), ind),
-                to_py(right.as_ref(), ind)
-            )
+            format!("{} == {}", operand(left, 7, ind), operand(right, 7, ind))
         }
         Core::Neq { left, right } => {
-            format!(
-                "{} != {}",
-                to_py(left.as_ref(), ind),
-                to_py(right.as_ref(), ind)
-            )
+            format!("{} != {}", operand(left, 7, ind), operand(right, 7, ind))
         }
         Core::IsA { left, right } => {
             format!(
@@ -335,95 +297,25 @@ fn to_py(core: &Core, ind: usize) -> String {
             )
         }
 
-        Core::AddU { expr } => format!("+{}", to_py(expr, ind)),
-        Core::Add { left, right } => {
-            format!(
-                "{} + {}",
-                to_py(left.as_ref(), ind),
-                to_py(right.as_ref(), ind)
-            )
-        }
-        Core::SubU { expr } => format!("-{}", to_py(expr, ind)),
-        Core::Sub { left, right } => {
-            format!(
-                "{} - {}",
-                to_py(left.as_ref(), ind),
-                to_py(right.as_ref(), ind)
-            )
-        }
-        Core::Mul { left, right } => {
-            format!(
-                "{} * {}",
-                to_py(left.as_ref(), ind),
-                to_py(right.as_ref(), ind)
-            )
-        }
-        Core::Div { left, right } => {
-            format!(
-                "{} / {}",
-                to_py(left.as_ref(), ind),
-                to_py(right.as_ref(), ind)
-            )
-        }
-        Core::FDiv { left, right } => {
-            format!(
-                "{} // {}",
-                to_py(left.as_ref(), ind),
-                to_py(right.as_ref(), ind)
-            )
-        }
+        Core::AddU { expr } => format!("+{}", operand(expr, 13, ind)),
+        Core::Add { left, right } => bin_left(left, "+", right, 11, ind),
+        Core::SubU { expr } => format!("-{}", operand(expr, 13, ind)),
+        Core::Sub { left, right } => bin_left(left, "-", right, 11, ind),
+        Core::Mul { left, right } => bin_left(left, "*", right, 12, ind),
+        Core::Div { left, right } => bin_left(left, "/", right, 12, ind),
+        Core::FDiv { left, right } => bin_left(left, "//", right, 12, ind),
         Core::Pow { left, right } => {
-            format!(
-                "{} ** {}",
-                to_py(left.as_ref(), ind),
-                to_py(right.as_ref(), ind)
-            )
+            format!("{} ** {}", operand(left, 15, ind), operand(right, 13, ind))
         }
-        Core::Mod { left, right } => {
-            format!(
-                "{} % {}",
-                to_py(left.as_ref(), ind),
-                to_py(right.as_ref(), ind)
-            )
-        }
+        Core::Mod { left, right } => bin_left(left, "%", right, 12, ind),
         Core::Sqrt { expr } => format!("math.sqrt({})", to_py(expr.as_ref(), ind)),
 
-        Core::BAnd { left, right } => {
-            format!(
-                "{} & {}",
-                to_py(left.as_ref(), ind),
-                to_py(right.as_ref(), ind)
-            )
-        }
-        Core::BOr { left, right } => {
-            format!(
-                "{} | {}",
-                to_py(left.as_ref(), ind),
-                to_py(right.as_ref(), ind)
-            )
-        }
-        Core::BXOr { left, right } => {
-            format!(
-                "{} ^ {}",
-                to_py(left.as_ref(), ind),
-                to_py(right.as_ref(), ind)
-            )
-        }
-        Core::BOneCmpl { expr } => format!("~{}", to_py(expr, ind)),
-        Core::BLShift { left, right } => {
-            format!(
-                "{} << {}",
-                to_py(left.as_ref(), ind),
-                to_py(right.as_ref(), ind)
-            )
-        }
-        Core::BRShift { left, right } => {
-            format!(
-                "{} >> {}",
-                to_py(left.as_ref(), ind),
-                to_py(right.as_ref(), ind)
-            )
-        }
+        Core::BAnd { left, right } => bin_left(left, "&", right, 9, ind),
+        Core::BOr { left, right } => bin_left(left, "|", right, 7, ind),
+        Core::BXOr { left, right } => bin_left(left, "^", right, 8, ind),
+        Core::BOneCmpl { expr } => format!("~{}", operand(expr, 13, ind)),
+        Core::BLShift { left, right } => bin_left(left, "<<", right, 10, ind),
+        Core::BRShift { left, right } => bin_left(left, ">>", right, 10, ind),
 
         Core::Return { expr } => format!("return {}", to_py(expr.as_ref(), ind)),
 
@@ -433,8 +325,10 @@ fn to_py(core: &Core, ind: usize) -> String {
             to_py(col.as_ref(), ind),
             newline_if_body(body, ind)
         ),
-        Core::In { left, right } => format! {"{} in {}", to_py(left, ind), to_py(right, ind)},
-        Core::Index { item, range } => format!("{}[{}]", to_py(item, ind), to_py(range, ind)),
+        Core::In { left, right } => {
+            format!("{} in {}", operand(left, 7, ind), operand(right, 7, ind))
+        }
+        Core::Index { item, range } => format!("{}[{}]", operand(item, 16, ind), to_py(range, ind)),
         Core::If { cond, then } => {
             format!(
                 "if {}:{}",
@@ -451,9 +345,9 @@ fn to_py(core: &Core, ind: usize) -> String {
         ),
         Core::Ternary { cond, then, el } => format!(
             "{} if {} else {}",
-            to_py(then.as_ref(), ind),
-            to_py(cond.as_ref(), ind + 1),
-            to_py(el.as_ref(), ind + 1)
+            operand(then, 3, ind),
+            operand(cond, 3, ind + 1),
+            operand(el, 2, ind + 1)
         ),
         Core::While { cond, body } => {
             format!(
@@ -528,6 +422,61 @@ fn to_py(core: &Core, ind: usize) -> String {
         }
 
         Core::Raise { error } => format!("raise {}", to_py(error, ind)),
+    }
+}
+
+/// Binding strength of a Core expression when printed as Python (higher binds tighter).
+fn prec(core: &Core) -> u8 {
+    match core {
+        Core::AnonFun { .. } => 1,
+        Core::Ternary { .. } => 2,
+        Core::Or { .. } => 3,
+        Core::And { .. } => 4,
+        Core::Not { .. } => 5,
+        Core::Ge { .. }
+        | Core::Geq { .. }
+        | Core::Le { .. }
+        | Core::Leq { .. }
+        | Core::Eq { .. }
+        | Core::Neq { .. }
+        | Core::Is { .. }
+        | Core::IsN { .. }
+        | Core::In { .. } => 6,
+        Core::BOr { .. } => 7,
+        Core::BXOr { .. } => 8,
+        Core::BAnd { .. } => 9,
+        Core::BLShift { .. } | Core::BRShift { .. } => 10,
+        Core::Add { .. } | Core::Sub { .. } => 11,
+        Core::Mul { .. } | Core::Div { .. } | Core::FDiv { .. } | Core::Mod { .. } => 12,
+        Core::AddU { .. } | Core::SubU { .. } | Core::BOneCmpl { .. } => 13,
+        Core::Pow { .. } => 14,
+        _ => 16,
+    }
+}
+
+/// Print operand, parenthesized if it binds weaker than required.
+fn operand(core: &Core, min: u8, ind: usize) -> String {
+    if prec(core) < min {
+        format!("({})", to_py(core, ind))
+    } else {
+        to_py(core, ind)
+    }
+}
+
+/// Left-associative binary operator: right operand of equal strength needs parentheses.
+fn bin_left(left: &Core, op: &str, right: &Core, p: u8, ind: usize) -> String {
+    format!(
+        "{} {op} {}",
+        operand(left, p, ind),
+        operand(right, p + 1, ind)
+    )
+}
+
+/// Postfix base: anything weaker than an atom, and integer literals before a dot, need parentheses.
+fn postfix_base(core: &Core, ind: usize) -> String {
+    match core {
+        Core::Int { .. } | Core::Float { .. } => format!("({})", to_py(core, ind)),
+        _ => operand(core, 16, ind),
     }
 }
 
